@@ -42,6 +42,11 @@ CHECKS = [
      "trusts: the reference model and renderer in sim/src/model/qplib.rs and the exact fixed-point polynomial model in model/poly.rs; single-blank layouts only (see evidence assumptions)",
      "deterministic simulation with fault injection (simulated disk/stream, truncation = crash point of the producer, seeded read-fault schedules, reference-model oracle, shrinking + replay)",
      "DESIGN.md section 3 C19"),
+ chk("C20", "exploration",
+     "seeded search over histories of 0-6 add operations (four layer kinds, seeded messages, annotation specs, repeated messages sharing a digest, named/unnamed, optional config) built with the real Builder on a simulated disk under ENOSPC / EIO / EINTR / short writes / open failure and simulated-clock jumps, then read back with Artifact::from_oci_archive fault-free ('every builder call Ok => read equals the reference model of layers': order, media types, messages, annotation maps, every accessor, digest addressing, wrong-type and unknown-digest refusals, filtered lists, name, config), under read faults ('Err or the model'), and through archive -> OCI directory -> re-saved archive; non-OMMX images must be refused.",
+     "trusts: the reference model of layers in sim/src/props/c20.rs, seeded message generators (model/gen_msg.rs); local registry and remote paths not exercised; time zone is process configuration",
+     "deterministic simulation with fault injection (operation histories on a simulated disk and clock, reference model of the layer list, shrinking + replay)",
+     "DESIGN.md section 3 C20"),
 ]
 m = {
  "version": 1,
